@@ -248,7 +248,7 @@ def gen_variant(rng, lo, hi, idx="0"):
         "end": end,
         "sequence": alt,
         "variant_type": kind.split("_")[0],
-        "phase_block": rng.choice([None, 1]),
+        "phase_block": rng.choice([None, 1, 0, 0, 7]),
         "variant_name": f"var{idx}" if rng.random() < 0.6 else None,
         "variant_id": f"vid{idx}" if rng.random() < 0.6 else None,
         "qualifiers": gen_qualifiers(rng, p_none=0.7),
